@@ -118,14 +118,20 @@ func toMsg(m *px.MsgIn) messaging.Msg {
 // alive probes whether the port mutex is still free: a call that panicked while
 // holding it leaves every later call blocked.
 func alive(p messaging.Port) bool {
-	done := make(chan struct{})
-	go func() { p.NumIncoming(); close(done) }()
-	select {
-	case <-done:
-		return true
-	case <-time.After(60 * time.Millisecond):
-		return false
+	// two probes, so that the verdict does not hinge on one accessor taking the lock; the
+	// deadline is generous (a blocked probe is the rare case; a free one returns at once)
+	done := make(chan struct{}, 2)
+	go func() { p.NumIncoming(); done <- struct{}{} }()
+	go func() { p.PeekIncoming(); done <- struct{}{} }()
+	deadline := time.After(300 * time.Millisecond)
+	for i := 0; i < 2; i++ {
+		select {
+		case <-done:
+		case <-deadline:
+			return false
+		}
 	}
+	return true
 }
 
 func exec(p messaging.Port, o opIn) (r obsOut) {
